@@ -423,3 +423,55 @@ def write_check(prop, place, c0, c1, known_nonxml=False):
             out["problem"] = "the two writers' documents do not carry the same infoset: %s vs %s" % (repr(res["native"])[:200], repr(res["lxml"])[:200])
         return out
     raise ValueError(prop)
+
+
+# ------------------------------------------------------------------------------------------------------------ reading model
+# XML 1.0 reading of what a writer put between tags / between attribute quotes (productions [2] Char, [14] CharData, [10] AttValue,
+# section 2.11 line ends, 3.3.3 attribute-value normalisation, 4.6 predefined entities): used as the oracle of the VALUE-SYMBOLIC
+# drivers that execute the native writer's Python text layer (XmlEventWriter + xml.sax.saxutils) on a symbolic string.
+def _xml_cp(cp):
+    return cp == 0x9 or cp == 0xA or cp == 0xD or 0x20 <= cp <= 0xD7FF or 0xE000 <= cp <= 0xFFFD or 0x10000 <= cp <= 0x10FFFF
+
+
+_ENT = {"amp": "&", "lt": "<", "gt": ">", "quot": '"', "apos": "'", "#9": "\t", "#10": "\n", "#13": "\r", "#x9": "\t", "#xA": "\n", "#xD": "\r"}
+
+
+def read_chardata(raw, attribute=False, quote=None):
+    """The string an XML 1.0 processor reports for `raw`; None if `raw` is not well-formed at that place."""
+    out = []
+    i, n = 0, len(raw)
+    while i < n:
+        ch = raw[i]
+        cp = ord(ch)
+        if cp == 0x3C:
+            return None
+        if attribute and quote is not None and cp == ord(quote):
+            return None
+        if cp == 0x26:
+            j = i + 1
+            while j < n and ord(raw[j]) != 0x3B:
+                j += 1
+            if j >= n:
+                return None
+            name = raw[i + 1 : j]
+            hit = None
+            for key, val in _ENT.items():
+                if len(name) == len(key) and all([ord(a) == ord(b) for a, b in zip(name, key)]):
+                    hit = val
+            if hit is None:
+                return None
+            out.append(hit)
+            i = j + 1
+            continue
+        if not _xml_cp(cp):
+            return None
+        if cp == 0xD:
+            out.append(" " if attribute else "\n")
+            if i + 1 < n and ord(raw[i + 1]) == 0xA:
+                i += 1
+        elif attribute and (cp == 0x9 or cp == 0xA):
+            out.append(" ")
+        else:
+            out.append(ch)
+        i += 1
+    return "".join(out)
